@@ -1,7 +1,7 @@
 /-
   Driver operations that *interpret the translated method bodies* (`Generated/Bodies.lean`), so that the PyIR
   interpreter itself — the hand-written meaning of the translated fragment — is validated against the real
-  implementation on generated inputs (`body.validate`, `body.build`, `body.compare`).
+  implementation on generated inputs (`body.validate`, `body.build`, `body.compare`, `body.overlaps`).
 -/
 import Lean.Data.Json
 import MafModel.Model.Ops
@@ -57,6 +57,19 @@ def dispatch (j : Json) : Json :=
     let a := kvOfJson ((j.getObjVal? "a").toOption.getD Json.null)
     let b := kvOfJson ((j.getObjVal? "b").toOption.getD Json.null)
     match (run Generated.Bodies.program (Bodies.host fp) "SortOrderKey" "compare" [.cls "SortOrderKey", a, b]).map (·.1) with
+    | .ok v => Json.mkObj [("value", valJson v)]
+    | .error e => Json.mkObj [("exc", Json.str (errName e))]
+  | some "body.overlaps" =>
+    -- `LocatableOverlapIterator.__overlaps(min_key, cur_key)` (or, with "barcodes", `__overlaps_with_barcode`) on
+    -- key objects as `Locatable.__init__` leaves them (plus the two barcode attributes)
+    let keyOf (o : Json) : Val :=
+      let g (k : String) := kvOfJson ((o.getObjVal? k).toOption.getD Json.null)
+      .obj "_BarcodesAndCoordinateKey" [("tumor_barcode", g "tumor"), ("normal_barcode", g "normal"),
+        ("_chromosome", g "chr"), ("_start", g "start"), ("_end", g "end")]
+    let a := keyOf ((j.getObjVal? "a").toOption.getD Json.null)
+    let b := keyOf ((j.getObjVal? "b").toOption.getD Json.null)
+    let m := if (j.getObjVal? "barcodes").toOption == some (Json.bool true) then "_LocatableOverlapIterator__overlaps_with_barcode" else "_LocatableOverlapIterator__overlaps"
+    match (run Generated.Bodies.program (Bodies.host fp) "LocatableOverlapIterator" m [.cls "LocatableOverlapIterator", a, b]).map (·.1) with
     | .ok v => Json.mkObj [("value", valJson v)]
     | .error e => Json.mkObj [("exc", Json.str (errName e))]
   | some "body.skipped" =>
